@@ -2,9 +2,9 @@ from .core import BASE_TRUST
 
 META = {
     "category": "proof",
-    "text": "Lean 4 theorems over the statement wrapper stmtImpl of the C05 model (the DML body works on copies obtained from the view map and publishes them - CachedViews.Set / ReplaceTemporaryTable - and sets the uncommitted marks only after the whole body succeeded): a statement that reports an error is the identity on tables, uncommitted marks and committed state, for every statement and every failure position (the index of the failing VALUES row / record / DEFAULT evaluation is universally quantified: any record may fail after earlier records were already rewritten in the working copy); a COMMIT after a failure writes exactly what a COMMIT before it would have written, in any history; COMMIT writes marked tables only. Cancellation is modelled too: it is harmless everywhere except in Delete's publication loop (counter-witness theorem + partial theorem). Model tied to /repo by a correspondence stream that runs every generated C05 statement additionally with an error injected at record k (division by zero in the k-th record's SET / VALUES / DEFAULT / WHERE expression or sub-query, wrong length of the k-th VALUES row, unknown field, record written twice, duplicate / unknown column, CREATE TABLE errors, cancellation at the k-th ctx.Err() call) and checks on the implementation alone that SELECT * of EVERY table and the uncommitted marks are identical before/after, and that the files after COMMIT are byte-identical to those of a control run without the failed statements",
+    "text": "Lean 4 theorems over the statement wrapper stmtImpl of the C05 model (the DML body works on copies obtained from the view map and publishes them - CachedViews.Set / ReplaceTemporaryTable - and sets the uncommitted marks only after the whole body succeeded): a statement that reports an error is the identity on tables, uncommitted marks and committed state, for every statement and every failure position (the index of the failing VALUES row / record / DEFAULT evaluation is universally quantified: any record may fail after earlier records were already rewritten in the working copy); a COMMIT after a failure writes exactly what a COMMIT before it would have written, in any history; COMMIT writes marked tables only. Cancellation is modelled too: every context check of every DML function precedes the publication of its results (Delete checks once between collecting the ids and its publication loop, repair 2dda37b), so a statement cancelled at ANY point is the identity on tables, marks and committed state (failed_stmt_id_cancel, full); the publication loop as it was before the repair is kept as a separate definition with its counter-witness and partial theorem. Model tied to /repo by a correspondence stream that runs every generated C05 statement additionally with an error injected at record k (division by zero in the k-th record's SET / VALUES / DEFAULT / WHERE expression or sub-query, wrong length of the k-th VALUES row, unknown field, record written twice, duplicate / unknown column, CREATE TABLE errors, cancellation at the k-th ctx.Err() call) and checks on the implementation alone that SELECT * of EVERY table and the uncommitted marks are identical before/after, and that the files after COMMIT are byte-identical to those of a control run without the failed statements",
     "design_ref": "DESIGN.md section 5, C08",
-    "note": "trusted: Lean kernel; harness + driver; value semantics of the model (a copy is a value) - that the Go code writes only into copies is exactly what the before/after stream observes; the aliasing facts of DESIGN (Gen/CowFacts) are not generated; cancellation is injected through a context whose Err() starts failing at the k-th call (deterministic with @@CPU 1, still a valid law check otherwise)",
+    "note": "trusted: Lean kernel; harness + driver; value semantics of the model (a copy is a value) - that the Go code writes only into copies is exactly what the before/after stream observes; the aliasing facts of DESIGN (Gen/CowFacts) are not generated; cancellation is injected through a context whose Err() starts failing at the k-th call (deterministic with @@CPU 1, still a valid law check otherwise); it is checked by the laws on the implementation alone, the model side is failed_stmt_id_cancel",
     "technique": "Lean 4 machine-checked proof (publish-after-success wrapper, error propagation for every failure position, commit algebra) + fault-injecting differential correspondence with the Go implementation and a control run",
 }
 
@@ -13,7 +13,7 @@ def run(run):
     q = run.tier == "quick"
     run.assumptions += [
         "value-semantics model: ViewMap.Get / GetWithInternalId / View.Copy return copies whose records are private (lib/query/view_map.go, record.go) - validated by the before/after stream, not proved about the Go code",
-        "cancellation inside Delete's publication loop violates the property for DELETE with >= 2 target tables (failed_stmt_id_cancel_counterexample, law failed_statement_changed_table with fault=cancel); everything else is covered by failed_stmt_id_cancel_partial",
+        "cancellation points of the model: inBody (any context check while loading / filtering / evaluating) and beforePublish (Delete's single check before its publication loop); that no publication loop contains a context check is validated by the scan that cancels a multi-target DELETE / UPDATE at EVERY ctx.Err() call (law cancelled_statement_changed_table, fixed finding F42)",
     ]
     run.obligations_for(["Csvq.Props.C08"])
     run.stream("c08", 2500 if q else 30000)
